@@ -47,9 +47,8 @@ ACTIONS = ["Alloc", "AllocFrom", "Free", "SetUnco", "ClearUnco"]
 WHAT = "real free list deviates from FreeList.tla"
 
 
-def run(ctx):
+def model_check(ctx):
     quick = ctx.tier == "quick"
-    exe = ctx.build("d_freelist")
     # ---- design level -------------------------------------------------------------------------
     fc.mc(ctx, "MC_FreeList.cfg", require=ACTIONS)
     fc.mc(ctx, "MC_FreeList_heads2.cfg", require=ACTIONS)
@@ -63,19 +62,27 @@ def run(ctx):
         fc.mc(ctx, "MC_FreeList_big.cfg", require=ACTIONS, timeout=2400)
         fc.mc(ctx, "MC_FreeList_heads2_big.cfg", require=ACTIONS, timeout=2400)
         fc.mc(ctx, "MC_FreeList_rm_big.cfg", require=ACTIONS + ["Grow"], timeout=2400)
+
+
+def drive_and_validate(ctx):
+    quick = ctx.tier == "quick"
+    exe = ctx.build("d_freelist")
     # ---- the real code: exhaustive short histories ----------------------------------------------
     ex_files = []
     plans = [("a", 1, 6, 3)] if quick else [("a", 1, 4, 6), ("b", 5, 6, 5), ("c", 7, 8, 4)]
     for tag, lo, hi, depth in plans:
         out = os.path.join(ctx.work, "explore_%s.ndjson" % tag)
         rc, o = ctx.run([exe, "explore", "--out", out, "--depth", str(depth), "--minunits", str(lo),
-                         "--maxunits", str(hi), "--nodecap", "6000"], timeout=1800)
-        if rc != 0:
+                         "--maxunits", str(hi), "--nodecap", "6000", "--hang", "30"],
+                        timeout=600 if quick else 2400)
+        if rc == 3:
+            ctx.sample("explore %s: a call of the code under test hung (Hang row recorded)" % tag)
+        elif rc != 0:
             ctx.violation("driver:explore:exit-%s" % rc, "d_freelist explore died (a fault in the "
                           "code under test that is not a panic): %s" % o[-600:])
             continue
         ex_files.append(out)
-        ctx.sample(o.strip().splitlines()[-1] + " (explore %s: units %d..%d depth %d)" % (tag, lo, hi, depth))
+        ctx.sample((o.strip().splitlines() or ["?"])[-1] + " (explore %s: units %d..%d depth %d)" % (tag, lo, hi, depth))
     # ---- the real code: random long histories ---------------------------------------------------
     rnd_files = []
     runs = [("dbg", exe, 40, 300, 512, 10)] if quick else [
@@ -84,9 +91,13 @@ def run(ctx):
     for tag, binary, nh, nops, mu, every in runs:
         out = os.path.join(ctx.work, "random_%s.ndjson" % tag)
         rc, o = ctx.run([binary, "random", "--out", out, "--histories", str(nh), "--ops", str(nops),
-                         "--maxunits", str(mu), "--every", str(every)], timeout=1800)
-        if rc != 0:
-            ctx.violation("driver:random:exit-%s" % rc, "d_freelist random died: %s" % o[-600:])
+                         "--maxunits", str(mu), "--every", str(every), "--hang", "30"],
+                        timeout=300 if quick else 1800)
+        if rc == 3:
+            ctx.sample("random %s: a call of the code under test hung (Hang row recorded)" % tag)
+        elif rc != 0:
+            ctx.violation("driver:random:exit-%s" % rc, "d_freelist random died or hung (rc -9 = "
+                          "time-out): %s" % o[-600:])
             continue
         rnd_files.append(out)
     # ---- validation -----------------------------------------------------------------------------
@@ -123,3 +134,8 @@ def run(ctx):
                            "another head's list (FreePre/AllocFromPre)")
     ctx.assumptions.append("the driver's legality filters read the observed table only to choose "
                            "inputs; every verdict is Trace_FreeList's")
+
+
+def run(ctx):
+    model_check(ctx)
+    drive_and_validate(ctx)
